@@ -715,12 +715,18 @@ pub fn gen_c07(tier: &str, seed: u64, out: &str) -> Value {
 // ---------------------------------------------------------------- C09
 
 pub fn uncompact_event(cells: &[u64], target: i32) -> Value {
+    about_to("uncompact", json!({"cells": quads_list(&cells[..cells.len().min(64)]), "ncells": cells.len(), "target": target}));
     let r = catch(|| a5::uncompact(cells, target));
-    let (outcome, out) = match r {
+    done();
+    let (outcome, mut out) = match r {
         Ok(Ok(v)) => ("ok", v),
         Ok(Err(_)) => ("err", vec![]),
         Err(_) => ("panic", vec![]),
     };
+    // an answer far longer than the honest one is cut (the relation rejects it on its length alone): a runaway answer
+    // must not take the recorder down with it
+    let honest_total = cells.iter().fold(0u64, |a, &c| a.saturating_add(honest_fanout(res_of(c), target)));
+    if out.len() as u64 > honest_total.saturating_add(16) { out.truncate((honest_total + 16) as usize); out.shrink_to_fit(); }
     // the code's own ancestor of every output at the resolution of the input whose block it is in
     let mut par = vec![];
     let mut idx = 0usize;
